@@ -272,7 +272,9 @@ def run(tier):
     nmc = len(mrecs)
     passing_mc = [i for i in range(nmc) if outs[i]["ran"] and not outs[i]["obs"]]
     rng.shuffle(passing_mc)
-    keep = set(passing_mc[: (300 if quick else 3000)])
+    # (chain-scenario documents have hundreds of objects in the thorough tier: the recursive *Run operators of the judge
+    # are not meant for them; their outcomes are checked against the automata by ChainOK and against lopdf by mc_drift)
+    keep = set([i for i in passing_mc if docs[i]["src"] != "mc:chain"][: (300 if quick else 3000)])
     executed = 0
     drift = 0
     seen_classes = collections.Counter()
